@@ -151,7 +151,10 @@ func NewTemplateGenerator(
 			log.Err(err).Msg("failed to get current working directory")
 			return nil, stackerr.NewStackErr(err)
 		}
-		outPkgFSPath = pathlib.NewPath(cwd).JoinPath(outPkgFSPath)
+		// Clean: joining `.` (the module's root package with `dir: "."`) leaves
+		// "<cwd>/.", which the comparison with the source directory below
+		// would not recognise as the same directory.
+		outPkgFSPath = pathlib.NewPath(cwd).JoinPath(outPkgFSPath).Clean()
 	}
 	outPkgPath, err := findPkgPath(outPkgFSPath)
 	if err != nil {
